@@ -159,7 +159,9 @@ static std::vector<Str> initial_states(int size) {
         Str x = t; add("//u" + x + "x@h/"); add("//h" + x + "x/p"); add("//" + x); add("/a" + x + "b"); add("a" + x + "b/c"); add(x + "/b"); add("s:" + x + "b"); add("?" + x); add("#" + x); add("s://u@h" + x + ":1/" + x + "?" + x + "#" + x);
     }
     // registered names that become the text of an IPv4 address once their triplets are decoded
-    for (auto h : { "1%2E2.3.4", "%31.2.3.4", "1.2.3.%34", "1%2e2.3.256", "100.99.10.255", "1%30%30.100.9.0" }) { add(Str("//") + h + "/x"); add(Str("s://u@") + h + ":1"); }
+    for (auto h : { "1%2E2.3.4", "%31.2.3.4", "1.2.3.%34", "1%2e2.3.256", "100.99.10.255", "1%30%30.100.9.0", "255.255%2E255.255" }) { add(Str("//") + h + "/x"); add(Str("s://u@") + h + ":1"); }
+    // IPvFuture literals holding every kind of character the rule allows next to upper-case letters (case folding of the literal must touch letters only)
+    for (auto h : { "[V1.Ab_Cd]", "[vA.~-_.!$&'()*+,;=:Z]", "[v1F.Q_q]" }) { add(Str("S://") + h + "/x"); add(Str("//u@") + h + ":1"); }
     // deeper paths over a reduced alphabet: runs of empty segments behind dot segments
     if (size >= 1) { std::vector<Str> d0 = path_token_paths({ "", ".", "..", "b" }, n + 2, 0), d1 = path_token_paths({ "", ".", "..", "b" }, n + 2, 1);
         for (auto &p : d0) { add(p); add("s:" + p); } for (auto &p : d1) { add(p); add("s:" + p); add("//h" + p); } }
